@@ -440,6 +440,84 @@ def keep(m, prefixes):
     return m
 
 
+def order_factory(H, n, quick):
+    """The real check_definitions on a symbolic group (C13's family, every node with its own symbolic
+    range): each 'will not be available in time' diagnostic carries the range of the DEFINITION IT
+    NAMES (the first name in the message), i.e. of the definition whose evaluation would get stuck."""
+    import c13
+    from gramsym.explorer import FuelExhausted
+    alpha = c13.family(n, quick)
+
+    def make():
+        ex, it = H.engine(solver_timeout_ms=120000)
+        ex.fuel = 6000
+        it.max_call_depth = 600
+        sp = TC.ProgramSpace("p", 3, alpha, scope=0)
+        root = sp.root()
+
+        def body(ex):
+            it.call_depth = 0
+            info = lambda m: TC.input_case(ex, m, root)
+            errs = VecV()
+            try:
+                it.call("parser", "check_definitions", [none(), Str(""), root, 0, errs])
+            except FuelExhausted:
+                ex.count("fuel")
+                return
+            except PanicEx as p:
+                ex.check(False, "PANIC %s (%s.rs:%s)" % (p.msg, p.module, p.line), info=info)
+                return
+            ex.count("errors:%d" % len(errs))
+            for e in errs:
+                e = it.deref(e)
+                msg = e.fields.get("msg_parts")
+                parts = list(msg.parts) if isinstance(msg, Str) and msg.parts else []
+                names = [str(it.deref(p)) for p in parts[1:]]
+                rng = e.fields.get("range")
+                if not names or not names[0].startswith("dp_"):
+                    ex.check(False, "O0.order-diagnostic-names-a-definition (%s)" % (names,), info=info)
+                    continue
+                i = int(names[0].split("_")[-1])
+                want = root.kid(2 * i + 1).sr
+                if rng is None:
+                    ex.check(False, "O1.order-diagnostic-has-no-excerpt", info=info)
+                    continue
+                rng = it.deref(rng)
+                w = it.deref(want.fields[0]) if isinstance(want, Adt) else None
+                ok_ = w is not None and z_and(z_eq(rng.fields["start"], w.fields["start"]), z_eq(rng.fields["end"], w.fields["end"]))
+                ex.check(ok_, "O1.order-diagnostic-points-at-the-definition-it-names (definition %d of %d)" % (i, n), info=info)
+        return ex, body, None
+    return make
+
+
+def confirm_order(H, label, case):
+    """Native: the compiled check_definitions; every diagnostic's excerpt must be the text of the
+    definition named first in its message (definitions get distinct one-line texts)."""
+    replay = H.get_replay()
+    tj = case["t"]
+    # give every definition its own line: "dK_______" at line K
+    width = 12
+    src = "".join(("d%d" % k).ljust(width - 1, "_") + "\n" for k in range(len(tj["defs"])))
+    t2 = json.loads(json.dumps(tj))
+    for k, d in enumerate(t2["defs"]):
+        d["def"]["sr"] = [k * width, k * width + width - 1]
+    r = replay.call({"op": "check_definitions", "term": t2, "cells": case.get("cells", {}), "depth": 0, "source": src})
+    if "errors" not in r:
+        return True, "compiled check_definitions failed: %s" % (r,)
+    bad = []
+    for e in r["errors"]:
+        text = e if isinstance(e, str) else json.dumps(e)
+        m = re.search(r"definition of `([^`]+)`", text)
+        if not m:
+            continue
+        k = [d["name"] for d in t2["defs"]].index(m.group(1)) if m.group(1) in [d["name"] for d in t2["defs"]] else None
+        if k is None:
+            continue
+        if ("d%d" % k).ljust(width - 1, "_") not in text:
+            bad.append((m.group(1), text[-80:]))
+    return bool(bad), "program %s: diagnostics whose excerpt is not the named definition: %s" % (T.show(case["t"], case.get("cells")), bad[:2])
+
+
 def main():
     H = Harness(PID)
     quick = H.tier == "quick"
@@ -463,7 +541,7 @@ def main():
         reproduced, detail = fn(H, lab, rec["case"])
         print(("REPRODUCED: " if reproduced else "NOT REPRODUCED: ") + detail)
         return 1 if reproduced else 0
-    only = os.environ.get("C15_PARTS", "LTSUB")
+    only = os.environ.get("C15_PARTS", "LTSUOB")
 
     def run(name, mk, confirm_fn, classify_fn=None, prefixes=None):
         t0 = time.time()
@@ -498,6 +576,12 @@ def main():
         n9 = 3 if quick else 4
         run("unexpected-symbol diagnostics (C09 exploration, %d characters)" % n9, c09.make_factory(H, n9, first, last), c09.confirm, prefixes=("T2.error-range",))
         H.bounds["unexpected symbols"] = "texts of %d code points" % n9
+    if "O" in only:
+        # definition-order diagnostics: the excerpt is the definition the message names
+        import c13
+        for n in ([2, 3] if quick else [2, 3, 4]):
+            run("definition-order diagnostics on groups of %d definitions" % n, order_factory(H, n, quick or n == 4), confirm_order)
+        H.bounds["definition-order errors"] = "groups of 2-3 (thorough: 4) definitions over literals, variables, negation, sums, calls, lambdas (C13's family); every 'will not be available in time' diagnostic"
     if "B" in only:
         import parse_common as PC
         import c07
